@@ -70,6 +70,24 @@ Theorem c06_failed_call_unchanged : forall unbind deadline (pre : list call) (k 
 Proof. exact run_failed_unchanged. Qed.
 Print Assumptions c06_failed_call_unchanged.
 
+(** "Witnessed" is exactly: signed the transaction, or is the contract that directly called the
+    token contract (the top of the call stack below it).  A contract deeper in the stack that did
+    not sign is not a witness - so by c06_debit_authorized a contract that a vault calls into
+    cannot debit the vault. *)
+Theorem c06_witness_rule : forall (k : call) (a : addr),
+  witnessed_by k a <-> In a (signers (c_ctx k)) \/ caller (c_ctx k) = Some a.
+Proof. intros k a. apply check_witness_iff. Qed.
+Print Assumptions c06_witness_rule.
+
+Theorem c06_indirect_caller_is_no_witness : forall tok o sg below a b now pe v2 w,
+  ~ In a sg -> a <> b ->
+  ~ witnessed_by (mkCall tok (mkCtx sg (below ++ [a; b]) now pe v2 w) o) a.
+Proof.
+  intros tok o sg below a b now pe v2 w Hn Hab H. unfold witnessed_by in H. simpl in H.
+  rewrite indirect_caller_not_witness in H by assumption. discriminate.
+Qed.
+Print Assumptions c06_indirect_caller_is_no_witness.
+
 (** The decidable check run on dumped implementation states implies the hypothesis above. *)
 Theorem c06_inv_check_sound : forall s, inv_check s = true -> inv s.
 Proof. exact inv_check_sound. Qed.
@@ -87,7 +105,7 @@ Definition ex_s0 : state :=
           [(tk_ont_addr, 100000000000000000000); (33%N, 7)]
           [((33%N, 34%N), 30000000000)] [] [(33%N, 10)].
 Definition ex_ctx (signers : list addr) (t : Z) : callctx :=
-  mkCtx signers None (tk_genesis_ts + t) false true false.
+  mkCtx signers [] (tk_genesis_ts + t) false true false.
 Definition ex_k1 := mkCall ONT (ex_ctx [33%N] 50) (Transfer false [TS 33%N 34%N 10]).
 Definition ex_k2 := mkCall ONT (ex_ctx [34%N] 150) (TransferFrom true 34%N 33%N 34%N 1500000000).
 Definition ex_k3 := mkCall ONT (ex_ctx [33%N] 160) (Transfer false [TS 33%N 34%N 5; TS 34%N 33%N 1]).
